@@ -85,14 +85,15 @@ root = job['root']
 BI = set(dir(builtins))
 
 def do(proj, req):
-    kind, text, pos = req
+    kind, text, pos = req[:3]
+    fn = req[3] if len(req) > 3 else os.path.join(root, 'main.py')
     try:
         if kind == 'lint':
-            return [list(x[:4]) for x in lint(proj, text, os.path.join(root, 'main.py'))]
+            return [list(x[:4]) for x in lint(proj, text, fn)]
         if kind == 'location':
-            return location(proj, text, tuple(pos), os.path.join(root, 'main.py'))
+            return location(proj, text, tuple(pos), fn)
         if kind == 'assist':
-            p, names = assist(proj, text, tuple(pos), os.path.join(root, 'main.py'))
+            p, names = assist(proj, text, tuple(pos), fn)
             return [p, [n for n in names if n not in BI]]
     except Exception as e:
         return 'EXC:' + type(e).__name__
@@ -160,6 +161,125 @@ def api_histories(ctx, programs, nseq):
                                       '(program %s): %r vs fresh %r' % (reqs[i][0], pos, os.path.basename(fn), str(a)[:150], str(res['fresh'][i])[:150]),
                                       {'kind': 'api', 'module': text, 'requests': reqs, 'sequence': seq, 'index': pos})
                     break
+    return bad
+
+
+def _pos_after(text, needle, nth=0):
+    """(line, col) just after the nth occurrence of needle"""
+    i = -1
+    for _ in range(nth + 1):
+        i = text.index(needle, i + 1)
+    i += len(needle)
+    before = text[:i]
+    return [before.count('\n') + 1, i - (before.rfind('\n') + 1)]
+
+
+def relimport_scenario(rng, root):
+    """nested package whose module uses relative imports of several levels (Project._norm_cache,
+    ImportedName._ref): completion / definition after each alias, in every order, on one Project"""
+    top = rng.choice(['pkga', 'c04top', 'outerp'])
+    sub = rng.choice(['sub', 'inner', 'deep'])
+    sib = rng.choice(['sib', 'other'])
+    files = {
+        top + '/__init__.py': '',
+        top + '/util.py': 'def top_helper():\n    return 1\ntop_only = 1\n',
+        top + '/' + sib + '/__init__.py': 'sib_flag = True\n',
+        top + '/' + sib + '/zed.py': 'def zed_helper():\n    return 3\n',
+        top + '/' + sub + '/__init__.py': '',
+        top + '/' + sub + '/util.py': 'def sub_helper():\n    return 2\nsub_only = 2\n',
+    }
+    for name, content in files.items():
+        path = os.path.join(root, name)
+        os.makedirs(os.path.dirname(path), exist_ok=True)
+        open(path, 'w').write(content)
+    mod = ('from . import util as near\nfrom .. import util as far\nfrom ..%s import zed\nfrom .. import %s as sb\n\n'
+           'near.sub_helper\nfar.top_helper\nzed.zed_helper\nsb.sib_flag\n' % (sib, sib))
+    fn = os.path.join(root, top, sub, 'mod.py')
+    open(fn, 'w').write(mod)
+    reqs = []
+    for alias, attr in (('near', 'sub_helper'), ('far', 'top_helper'), ('zed', 'zed_helper'), ('sb', 'sib_flag')):
+        cut = mod.replace('%s.%s' % (alias, attr), '%s.' % alias)
+        reqs.append(['assist', cut, _pos_after(cut, '\n%s.' % alias), fn])
+        reqs.append(['location', mod, _pos_after(mod, '\n%s.%s' % (alias, attr)), fn])
+    reqs.append(['assist', 'from . import \n', [1, 14], fn])
+    reqs.append(['assist', 'from .. import \n', [1, 15], fn])
+    reqs.append(['lint', mod, None, fn])
+    return reqs
+
+
+def instance_scenario(rng, root):
+    """class in a project module (cached by the Project) with instance attributes set in methods:
+    class requests, instance requests, class requests again (cached _attrs / bases / _ctx_values)"""
+    cls = rng.choice(['Box', 'Node', 'Shape'])
+    subc = rng.choice(['Crate', 'Leaf', 'Square'])
+    a1, a2, a3 = rng.sample(['width', 'height', 'label', 'extra', 'payload', 'count'], 3)
+    modname = rng.choice(['boxes', 'shapes_m', 'model'])
+    body = ('class %(c)s(object):\n    depth = 1\n    def __init__(self):\n        self.%(a1)s = 1\n        self.%(a2)s = 2\n'
+            '    def area(self):\n        self.%(a3)s = 3\n        return self.%(a1)s\n'
+            '    @classmethod\n    def make(cls):\n        return cls.depth\n\n'
+            'class %(s)s(%(c)s):\n    kind = 2\n    def __init__(self):\n        self.tag_%(a1)s = 4\n'
+            % {'c': cls, 's': subc, 'a1': a1, 'a2': a2, 'a3': a3})
+    mfn = os.path.join(root, modname + '.py')
+    open(mfn, 'w').write(body)
+    main = ('from %(m)s import %(c)s, %(s)s\nimport %(m)s\nb = %(c)s()\nc = %(s)s()\n%(c)s.depth\nb.%(a1)s\n%(s)s.kind\nc.tag_%(a1)s\n'
+            '%(m)s.%(c)s.depth\n' % {'m': modname, 'c': cls, 's': subc, 'a1': a1})
+    fn = os.path.join(root, 'main.py')
+    reqs = []
+    for expr, attr in ((cls, 'depth'), ('b', a1), (subc, 'kind'), ('c', 'tag_' + a1), ('%s.%s' % (modname, cls), 'depth')):
+        full = '\n%s.%s\n' % (expr, attr)
+        cut = main.replace(full, '\n%s.\n' % expr)
+        reqs.append(['assist', cut, _pos_after(cut, '\n%s.' % expr), fn])
+        reqs.append(['location', main, _pos_after(main, '\n%s.%s' % (expr, attr)), fn])
+    cut = body.replace('return cls.depth', 'return cls.')
+    reqs.append(['assist', cut, _pos_after(cut, 'return cls.'), mfn])
+    cut = body.replace('return self.%s' % a1, 'return self.')
+    reqs.append(['assist', cut, _pos_after(cut, 'return self.'), mfn])
+    reqs.append(['lint', main, None, fn])
+    return reqs
+
+
+def project_histories(ctx, nproj, nseq):
+    """multi-module projects; the order of assist / location / lint requests on one long-lived
+    Project is permuted and every answer compared with a fresh Project's"""
+    bad = 0
+    wpath = os.path.join(ctx.scratch, 'c04_api.py')
+    open(wpath, 'w').write(API_WORK)
+    for pi in range(nproj):
+        for kind, gen in (('relimport', relimport_scenario), ('instance', instance_scenario)):
+            root = os.path.join(ctx.scratch, 'scen_%s%d' % (kind, pi))
+            os.makedirs(root)
+            reqs = gen(ctx.rng, root)
+            idx = list(range(len(reqs)))
+            seqs = [idx, idx[::-1], [i for i in idx for _ in (0, 1)], idx + idx]
+            # class request, instance request, the same class request again; near then far, far then near
+            for i in idx:
+                for j in idx:
+                    if i != j and ctx.rng.random() < 0.25:
+                        seqs.append([i, j, i])
+            for _ in range(nseq):
+                p = idx[:]
+                ctx.rng.shuffle(p)
+                seqs.append(p)
+            jpath = os.path.join(root, 'job.json')
+            json.dump({'root': root, 'requests': reqs, 'sequences': seqs}, open(jpath, 'w'))
+            rc, out, err = common.run_py(wpath, [jpath], timeout=600)
+            if rc != 0:
+                raise RuntimeError('api worker failed: ' + err[-1500:])
+            res = json.loads(out)
+            ctx.histogram('project_scenario', kind)
+            for seq, answers in zip(seqs, res['seq']):
+                for pos, (i, a) in enumerate(zip(seq, answers)):
+                    ctx.count(('proj', kind, pi, tuple(seq[:pos + 1])), nontrivial=pos > 0)
+                    if a != res['fresh'][i]:
+                        bad += 1
+                        if bad <= 5:
+                            files = {os.path.relpath(os.path.join(d, f), root): open(os.path.join(d, f)).read()
+                                     for d, _, fs in os.walk(root) for f in fs if f.endswith('.py')}
+                            ctx.violation('%s project: request %s at %s answered differently after %d earlier requests on the same '
+                                          'Project: %r vs fresh %r' % (kind, reqs[i][0], reqs[i][2], pos, str(a)[:160], str(res['fresh'][i])[:160]),
+                                          {'kind': 'project-history', 'scenario': kind, 'files': files, 'requests': reqs,
+                                           'sequence': seq, 'index': pos})
+                        break
     return bad
 
 
@@ -294,6 +414,7 @@ def run(ctx):
     ctx.rng.shuffle(api_progs)
     cov['api_differences'] = api_histories(ctx, api_progs[:ctx.pick(4, 30)], ctx.pick(2, 6))
 
+    cov['project_history_differences'] = project_histories(ctx, ctx.pick(3, 20), ctx.pick(6, 30))
     ctx.log('api histories done')
     # ---- (I) ---------------------------------------------------------------------------------------
     imports = ['Model.Layout', 'Model.FlowGraph', 'Model.Memo']
